@@ -106,12 +106,16 @@ func (o *storeHandler) getResource(r res.GetRequest) {
 
 	v, err := txn.Value()
 	if err != nil {
-		if errors.Is(err, ErrNotFound) && o.def != nil {
-			v = o.def
-		} else {
+		if !errors.Is(err, ErrNotFound) {
 			r.Error(err)
 			return
 		}
+		// The store may wrap ErrNotFound
+		if o.def == nil {
+			r.NotFound()
+			return
+		}
+		v = o.def
 	} else {
 		if o.trans != nil {
 			v, err = o.trans.Transform(id, v)
